@@ -13,7 +13,7 @@ import (
 // valid UTF-8 (JSON cannot carry anything else).
 var nasty = []string{
 	",", ",,", "\t", "\"", "\"\"", "'", "\r", "\n", "\r\n", "\n\r", "\x00", "\x01", "\x07", "\x08", "\x0b", "\x0c", "\x1b", "\x1f", "\x7f",
-	"\u0085", " ", " ", " ", "﻿", "�", "\U0001F600", "👨‍👩‍👧‍👦", "🇯🇵", "日本語", "é", "é", "\U0010FFFF",
+	"\u0085", "\u00a0", "\u2028", "\u2029", "\ufeff", "\ufffd", "\U0001F600", "👨‍👩‍👧‍👦", "🇯🇵", "日本語", "é", "é", "\U0010FFFF",
 	"\\", "\\n", "\\\"", "\\.", "\\u0041", " ", "  ", ";", "|", "=1+1", "@cmd", "#", "//", "/*", "*/", "<b>", "&amp;", "</script>",
 	"{", "}", "[", "]", "{\"a\":1}", "[1,2,3]", "null", "true", "false", "NaN", "1e999", "0", "-0", "\"id\":\"x\"", "\"}\n{\"", "],[",
 	"meta_level", "chunk_id", "text", "id",
